@@ -51,6 +51,8 @@ fn fail_matches(f: &Fail, err: &str) -> bool {
         Fail::DivideByZero => variant == "DivideByZero",
         Fail::NotBinary => variant == "NotBinaryValue",
         Fail::NotU32 => variant == "NotU32Value",
+        // NotU32Value(value, err_code): the code is the last number (the variant name itself contains digits)
+        Fail::NotU32Code(code) => variant == "NotU32Value" && numbers(err).last() == Some(&(*code as u64)),
         Fail::Assert(code) => {
             variant == "FailedAssertion" && {
                 // FailedAssertion { clk: c, err_code: e, err_msg: .. }
